@@ -29,7 +29,7 @@ def run_tlc_job(sc, name, mod, cfg, workers, timeout, heap="8g"):
         f.write(mod)
     with open(os.path.join(sd, "mc.cfg"), "w") as f:
         f.write(cfg)
-    r = C.tlc(sd, "MCJob", "mc.cfg", sc, workers=workers, timeout=timeout, heap=heap)
+    r = C.tlc(sd, "MCJob", "mc.cfg", sc, workers=workers, timeout=timeout, heap=heap, extra=["-maxSetSize", "20000000"])
     r["name"] = name
     shutil.rmtree(sd, ignore_errors=True)
     return r
@@ -51,6 +51,14 @@ def workloads(rng, tier):
                 w["blocksize"] = 1024
             ws.append(w)
             i += 1
+    # probe of the recorded finding: 9 entries rewritten after 4 one-entry transactions (bound 8)
+    ws.append({"id": "kf-tiny", "n": 8, "per": 1, "namelen": 10, "kind": "value", "fresh": True, "logs": False, "split": True, "hash": "sha1", "blocksize": 0,
+               "unaligned": False, "restart": 0, "every": 1})
+    # transactions much smaller than the fixed per-table overhead, N = 400: the regime in which a size heuristic that counts
+    # a few constant bytes too many merges the bottom tables again and again
+    for k, (kind, logs, hs) in enumerate([("symref", False, "sha1"), ("value", False, "sha1"), ("symref", False, "s256"), ("delete", True, "sha1")]):
+        ws.append({"id": "tiny%d" % k, "n": 400, "per": 1, "namelen": 0, "kind": kind, "fresh": True, "logs": logs and kind != "delete", "split": k % 2 == 0, "hash": hs,
+                   "blocksize": 0, "unaligned": False, "restart": 0, "every": 1, "tiny": True})
     for k in range(6 if tier == "quick" else 40):
         ws.append({"id": "mix%d" % k, "n": 60 if tier == "quick" else 200, "per": 1, "namelen": rng.choice([0, 10]), "kind": "value", "fresh": True,
                    "logs": False, "split": True, "hash": rng.choice(["sha1", "s256"]), "blocksize": rng.choice([0, 1024]), "unaligned": rng.random() < 0.3,
@@ -118,8 +126,19 @@ def run(pid, tier):
         mine = [v for v in viols if v[0] in CHECKS]
         nviol, seen_known = 0, set()
         bysig = collections.OrderedDict()
+        def sig_of(chk, tid, line):
+            # the recorded finding (KNOWN_FINDINGS.txt): for N <= 64 the literal bound N*ceil(log2 N) is exceeded by less than one
+            # extra level (fixed per-table overhead puts tables of 1, 2 and 3 transactions into one size class);
+            # anything beyond that - larger N, or more than one level - is a different violation and is reported
+            if chk == "C17_RewriteBound":
+                e = byid[tid]["events"][line - 1]
+                n, per = e.get("n", 0), max(1, e.get("per", 1))
+                lg = max(1, (n - 1).bit_length())
+                if 2 <= n <= 64 and e.get("written", 0) <= n * (lg + 1) * per:
+                    return "rewrite-bound-small-n-within-one-level"
+            return chk
         for chk, tid, line in mine:
-            bysig.setdefault(chk, []).append((chk, tid, line))
+            bysig.setdefault(sig_of(chk, tid, line), []).append((chk, tid, line))
         for sig, lst in bysig.items():
             if sig in known:
                 seen_known.add(sig)
